@@ -102,6 +102,44 @@ def replay_files(prop, files, work, maxpar=16):
     return reps
 
 
+def run_fuzz(prop, fz, work, base):
+    """atheris campaigns (one process each) driving the property's own strategy; returns merged statistics"""
+    deps = os.path.join(ROOT, ".deps")
+    if not os.path.isdir(os.path.join(deps, "atheris")):
+        return {"skipped": "atheris is not installed under .deps (run MANIFEST.setup_cmd)", "executions": 0, "found": []}
+    procs = []
+    for k in range(fz.get("procs", 8)):
+        out = os.path.join(work, "fuzz_%d" % k)
+        env = worker_env(1 + h32(base, "fuzzhash", k) % (2 ** 31 - 2))
+        env["PYTHONPATH"] = env["PYTHONPATH"] + os.pathsep + deps
+        log = open(os.path.join(work, "fuzz_%d.log" % k), "w")
+        p = subprocess.Popen([sys.executable, "-u", "-m", "vlib.fuzz", prop, str(fz.get("runs", 20000)),
+                              str(1 + h32(base, "fuzz", k) % (2 ** 31 - 2)), out],
+                             cwd=ROOT, env=env, stdout=log, stderr=subprocess.STDOUT)
+        procs.append((p, out, log))
+    info = {"processes": len(procs), "runs_per_process": fz.get("runs", 20000), "executions": 0, "nontrivial": 0,
+            "inconclusive": 0, "found": []}
+    deadline = time.time() + fz.get("max_wall", 5400)
+    for p, out, log in procs:
+        try:
+            p.wait(timeout=max(1, deadline - time.time()))
+        except subprocess.TimeoutExpired:
+            p.kill()
+        log.close()
+        try:
+            with open(os.path.join(out, "stats.json")) as fh:
+                st = json.load(fh)
+            for k in ("executions", "nontrivial", "inconclusive"):
+                info[k] += st.get(k, 0)
+        except (OSError, ValueError):
+            pass
+        fj = os.path.join(out, "found.json")
+        if os.path.exists(fj):
+            with open(fj) as fh:
+                info["found"].append(json.load(fh))
+    return info
+
+
 def main(argv=None):
     ap = argparse.ArgumentParser()
     ap.add_argument("prop")
@@ -226,6 +264,12 @@ def do_check(a, prop, mod, work, base, t0):
         with open(out) as fh:
             reports.append(json.load(fh))
 
+    # ------------------------------------------------------------ 2b. coverage-guided supplement (thorough tier)
+    fuzz_info = None
+    fz = getattr(mod, "FUZZ", None)
+    if fz and tier == "thorough" and not os.environ.get("VERIF_NO_FUZZ"):
+        fuzz_info = run_fuzz(prop, fz, work, base)
+
     # ------------------------------------------------------------ 3. merge
     evaluations = sum(r["evaluations"] for r in reports) + len(regress)
     hashes = set()
@@ -252,6 +296,9 @@ def do_check(a, prop, mod, work, base, t0):
         if r.get("exhaustive"):
             exhaustive_cases += r["exhaustive"]["cases"]
         found.extend(r["found"])
+    if fuzz_info:
+        evaluations += fuzz_info["executions"]
+        found.extend(fuzz_info.pop("found"))
     for r in reports:
         for s in r["samples"][:2]:
             if len(samples) < 8:
@@ -304,6 +351,8 @@ def do_check(a, prop, mod, work, base, t0):
         cov["exhaustive"] = True
         cov["exhaustive_cases"] = exhaustive_cases
         cov["exhaustive_scope"] = getattr(mod, "EXHAUSTIVE_SCOPE", {}).get(tier, "")
+    if fuzz_info:
+        cov["atheris_supplement"] = fuzz_info
     if health:
         cov["health_gate"] = health
     ev = {
